@@ -68,6 +68,8 @@ inductive Stmt
 structure Cfg where
   bounds : List (Option Int × Option Int)           -- inclusive hard bounds per parameter
   bodies : List (List Stmt)
+  /-- indices of `param.Event` parameters (booleans 0/1 that reset themselves to False) -/
+  events : List Nat := []
 
 def Cfg.nparams (c : Cfg) : Nat := c.bounds.length
 
@@ -76,6 +78,8 @@ def Cfg.valid (c : Cfg) (p : Nat) (v : Int) : Bool :=
   | some (lo, hi) => (match lo with | some l => decide (l ≤ v) | none => true) &&
                      (match hi with | some h => decide (v ≤ h) | none => true)
   | none => false
+
+def Cfg.isEvent (c : Cfg) (p : Nat) : Bool := c.events.contains p && decide (p < c.nparams)
 
 def Cfg.body (c : Cfg) (i : Nat) : List Stmt := c.bodies.getD i []
 
@@ -86,6 +90,8 @@ structure World where
   trigger : Bool               -- `_TRIGGER`
   events : List Ev             -- `_events`
   queued : List Watcher        -- `_state_watchers`
+  /-- Event parameters whose `_mode` is currently 'set' (all others are in 'set-reset') -/
+  setMode : List Nat := []
   ncalls : Nat := 0            -- number of callback invocations so far (ghost)
   deriving Repr
 
@@ -152,10 +158,15 @@ registered watchers seen at entry (what a caller can observe before making the c
 def keyNodes (w : World) (kvs : List (Nat × Int)) (tr : Bool) : List Item :=
   kvs.map fun kv => .stmt "key" kv.1 (getVal w kv.1) kv.2 true tr ((regsFor w kv.1).map (·.id)) [] .ok
 
+/-- `dict({name: current value}, **{event: True})` -/
+def triggerKvs (c : Cfg) (w : World) (ps : List Nat) : List (Nat × Int) :=
+  dedupKeys (ps.map (fun p => (p, if c.isEvent p then 1 else getVal w p)))
+
 inductive Call
   | stmts (l : List Stmt)
   | stmt (s : Stmt)
   | setAttr (p : Nat) (v : Int)
+  | setPlain (p : Nat) (v : Int)
   | dispatch (ws : List Watcher) (ev : Ev)
   | callWatcher (wt : Watcher) (ev : Ev)
   | exec (wt : Watcher) (evs : List TEv) (viaFlush : Bool)
@@ -208,7 +219,7 @@ def run (c : Cfg) : Nat → Call → World → Res × World × List Item
     | .stmt (.trigger ps) =>
       let (r, w1, o) := run c f (.trigger ps) w
       (r, w1, [.stmt "trigger" 0 0 0 w.batch w.trigger []
-                (keyNodes w (dedupKeys (ps.map (fun p => (p, getVal w p)))) true ++ o) r])
+                (keyNodes w (triggerKvs c w ps) true ++ o) r])
     | .stmt (.batch body) =>
       -- batch_call_watchers: save flag, set, finally restore and flush iff the saved flag was off
       let saved := w.batch
@@ -240,7 +251,18 @@ def run (c : Cfg) : Nat → Call → World → Res × World × List Item
       | (.raised _, w1, o1) => (.ok, w1, o1)
       | r => r
     | .setAttr p v =>
-      -- validate, store, then dispatch to the watchers registered for p
+      if c.isEvent p then
+        -- `Event.__set__`: in modes 'set-reset' and 'set' run the ordinary setter; then, unless the
+        -- mode (re-read) is 'set', `_reset_event` puts False back without any event.  An exception
+        -- from the ordinary setter skips the reset.
+        match run c f (.setPlain p v) w with
+        | (.ok, w1, o1) =>
+          if w1.setMode.contains p then (.ok, w1, o1)
+          else (.ok, { w1 with vals := w1.vals.set p 0 }, o1)
+        | r => r
+      else run c f (.setPlain p v) w
+    | .setPlain p v =>
+      -- `Parameter.__set__`: validate, store, then dispatch to the watchers registered for p
       if !c.valid p v then (.raised .value, w, [])
       else
         let old := getVal w p
@@ -301,18 +323,24 @@ def run (c : Cfg) : Nat → Call → World → Res × World × List Item
         (r2, w2, o1 ++ o2)
       | r => r
     | .update kvs =>
-      -- `_update`: save flag, set it, apply the keys; finally restore the flag and flush iff it was off
+      -- `_update`: save flag, set it, put the Event parameters among the keys in mode 'set', apply the
+      -- keys; finally restore the flag and flush iff it was off; finally (nested) reset those Event
+      -- parameters to False without events and put them back in mode 'set-reset'
       let saved := w.batch
-      let (r1, w1, o1) := run c f (.updateKeys kvs) { w with batch := true }
+      let tps := (kvs.map (·.1)).filter c.isEvent
+      let (r1, w1, o1) := run c f (.updateKeys kvs) { w with batch := true, setMode := tps ++ w.setMode }
       match r1 with
       | .oof => (.oof, w1, [])
       | _ =>
         let w2 := { w1 with batch := saved }
-        if saved then (r1, w2, o1)
-        else
-          let (r3, w3, o3) := run c f .flush w2
-          let r := match r3 with | .oof => .oof | _ => r1.andThen r3
-          (r, w3, o1 ++ o3)
+        let (r3, w3, o3) := if saved then (Res.ok, w2, []) else run c f .flush w2
+        match r3 with
+        | .oof => (.oof, w3, [])
+        | _ =>
+          (r1.andThen r3,
+           { w3 with vals := tps.foldl (fun vs tp => vs.set tp 0) w3.vals,
+                     setMode := w3.setMode.filter (fun p => !tps.contains p) },
+           o1 ++ o3)
     | .updateKeys [] => (.ok, w, [])
     | .updateKeys ((k, v) :: rest) =>
       if k ≥ c.nparams then (.raised .value, w, [])
@@ -328,7 +356,7 @@ def run (c : Cfg) : Nat → Call → World → Res × World × List Item
       -- the flag is restored to what it was
       let parkedE := w.events
       let parkedQ := w.queued
-      let kvs := dedupKeys (ps.map (fun p => (p, getVal w p)))
+      let kvs := triggerKvs c w ps
       let (r1, w1, o1) := run c f (.update kvs) { w with events := [], queued := [], trigger := true }
       (r1, { w1 with trigger := w.trigger, events := parkedE ++ w1.events,
                      queued := parkedQ ++ w1.queued.filter (fun x => !hasId parkedQ x.id) }, o1)
